@@ -212,7 +212,13 @@ void check_no_leaks(const string &dir, const std::vector<SstFile> &files, const 
       case simfs::FC_TEMP: ok = false; break;
       default: break;
     }
-    if (!ok) { violation("C13", "leak", "%s: %s is in the directory although nothing references it (live tables %zu, log number %llu, manifest %s)", why, n.c_str(), files.size(), (unsigned long long)st.log, mname.c_str()); return; }
+    if (!ok) {
+      string ls, lv;
+      for (auto &x : simfs::list_dir(dir)) ls += " " + x;
+      for (auto &f : files) lv += " " + std::to_string(f.number) + "@L" + std::to_string(f.level);
+      violation("C13", "leak", "%s: %s is in the directory although nothing references it (live tables:%s; log number %llu; manifest %s; directory:%s)", why, n.c_str(), lv.c_str(), (unsigned long long)st.log, mname.c_str(), ls.c_str());
+      return;
+    }
   }
   for (auto &f : files)
     if (!simfs::exists(table_path(dir, f.number))) { violation("C13", "live_file_missing", "%s: table %llu is live but missing from the directory", why, (unsigned long long)f.number); return; }
